@@ -20,6 +20,8 @@ from ..common import execute_cases, qs
 
 SCALE = 10**8
 TUCKER = ("tucker", "nn_tucker", "nn_tucker_hals")
+RING = ("tr_als", "tr_als_sampled")
+CPF = ("nn_parafac", "nn_parafac_hals", "constrained_parafac")
 
 
 def qe(x):
@@ -38,7 +40,7 @@ def make_data(c):
             X = np.moveaxis(np.tensordot(rng.random_sample((n, 2)), X, axes=(1, m)), 0, m)
         if c["data"] == "noisy":
             X = X + 0.1 * np.std(X) * rng.standard_normal(shape)
-    if c["alg"] in ("nn_tucker", "nn_tucker_hals"):
+    if c["alg"] in ("nn_tucker", "nn_tucker_hals") + CPF:
         X = np.abs(X)
     return X
 
@@ -50,12 +52,16 @@ LINE = [
     ("Iter0", re.compile(r"^Iteration (\d+) finished\.$")),
     ("CbExit", re.compile(r"^Received True from callback function\. Exiting\.$")),
     ("ConvR", re.compile(r"^tensor_ring_als converged after (\d+) iterations\.$")),
+    ("Err0", re.compile(r"^reconstruction error=(\S+)$")),
+    ("ErrK", re.compile(r"^iteration (\d+), reconstr[au]ction error: (\S+), decrease = (\S+?)(?:, unnormalized = \S+)?$")),
+    ("ConvC", re.compile(r"^PARAFAC converged after (\d+) iterations$")),
 ]
 
 
 def execute(c):
     import tensorly as tl  # noqa
-    from tensorly.decomposition import tucker, non_negative_tucker, non_negative_tucker_hals, tensor_ring_als, tensor_ring_als_sampled
+    from tensorly.decomposition import (tucker, non_negative_tucker, non_negative_tucker_hals, tensor_ring_als, tensor_ring_als_sampled,
+                                        non_negative_parafac, non_negative_parafac_hals, constrained_parafac)
     tid = c["id"]
     X = make_data(c)
     alg, cap, tol = c["alg"], c["cap"], c["tol"]
@@ -80,6 +86,18 @@ def execute(c):
             elif alg == "nn_tucker_hals":
                 _, errs = non_negative_tucker_hals(X, c["rank"], n_iter_max=cap, tol=tol, init=c["init"], random_state=c["seed"], verbose=True,
                                                    return_errors=True, algorithm=c.get("algorithm", "fista"))
+            elif alg in CPF:
+                cvg = "rec_error" if c.get("signed") else "abs_rec_error"
+                rk = c["rank"] if isinstance(c["rank"], int) else c["rank"][0]
+                if alg == "nn_parafac":
+                    _, errs = non_negative_parafac(X, rk, n_iter_max=cap, tol=tol, init=c["init"], random_state=c["seed"], verbose=1, return_errors=True,
+                                                   cvg_criterion=cvg)
+                elif alg == "nn_parafac_hals":
+                    _, errs = non_negative_parafac_hals(X, rk, n_iter_max=cap, tol=tol, init=c["init"], random_state=c["seed"], verbose=True,
+                                                        return_errors=True, cvg_criterion=cvg)
+                else:
+                    _, errs = constrained_parafac(X, rk, n_iter_max=cap, tol_outer=tol, init=c["init"], random_state=c["seed"], verbose=True,
+                                                  return_errors=True, cvg_criterion=cvg, non_negative=True, n_iter_max_inner=c.get("inner", 5))
             elif alg == "tr_als":
                 tensor_ring_als(X, c["rank"], n_iter_max=cap, tol=tol, random_state=c["seed"], verbose=True, callback=cb, ls_solve=c.get("ls_solve", "lstsq"))
                 errs = cb_errs[1:] if c["cb"] else None
@@ -107,8 +125,14 @@ def execute(c):
             if name == "Err":
                 ev.update(ev="Err", e=qe(float(m.group(1))), d=qe(float(m.group(2))))
                 raw_printed.append(float(m.group(1)))
-            elif name in ("ConvT", "ConvR"):
-                ev.update(ev="Conv", k=int(m.group(1)), fam="tucker" if name == "ConvT" else "ring")
+            elif name in ("ConvT", "ConvR", "ConvC"):
+                ev.update(ev="Conv", k=int(m.group(1)), fam={"ConvT": "tucker", "ConvR": "ring", "ConvC": "cp"}[name])
+            elif name == "Err0":
+                ev.update(ev="Err0", e=qe(float(m.group(1))))
+                raw_printed.append(float(m.group(1)))
+            elif name == "ErrK":
+                ev.update(ev="ErrK", k=int(m.group(1)), e=qe(float(m.group(2))), d=qe(float(m.group(3))))
+                raw_printed.append(float(m.group(2)))
             elif name == "IterE":
                 ev.update(ev="Iter", k=int(m.group(1)), has_e=True, e=qe(float(m.group(2))), has_d=m.group(3) is not None,
                           d=qe(float(m.group(3))) if m.group(3) is not None else 0)
@@ -120,15 +144,17 @@ def execute(c):
             break
         events.append(ev)
     n_errs = -1 if errs is None else len(errs)
-    if errs is None and alg not in TUCKER and tol:
+    if errs is None and alg in RING and tol:
         errs = raw_printed            # no list is handed back and no callback collects one: the printed values are the record
     errs = errs or []
     below = []
     for k in range(1, len(errs)):
         dec = errs[k - 1] - errs[k]
-        below.append(bool(tol) and bool(abs(dec) < tol if alg in TUCKER else dec < tol))
+        signed = alg in RING or (alg in CPF and bool(c.get("signed")))
+        below.append(bool(tol) and bool(dec < tol if signed else abs(dec) < tol))
     call = {"id": tid + "/call", "tr": tid, "ev": "Call",
-            "cfg": {"alg": alg, "cap": cap, "tol": bool(tol), "cb": bool(c["cb"]), "cbstops": bool(c["cb"]) and c["cb_stop_at"] is not None},
+            "cfg": {"alg": alg, "cap": cap, "tol": bool(tol), "cb": bool(c["cb"]), "cbstops": bool(c["cb"]) and c["cb_stop_at"] is not None,
+                    "signed": alg in RING or (alg in CPF and bool(c.get("signed")))},
             "errs": [qe(e) for e in errs], "n_errs": n_errs, "n_cb": len(cb_errs), "cb_true_at": cb_true[0] if cb_true else -1, "below": below, "out": out, "exc": exc}
     return [call] + events + [{"id": tid + "/end", "tr": tid, "ev": "Return" if out == "ok" else "Raise", "exc": exc}]
 
@@ -167,13 +193,22 @@ def configs(tier, seed):
         for j in range(12 if thorough else 5):
             add(alg=alg, cap=[40, 25, 60][j % 3], tol=[1e-3, 1e-6, 1e-1, 0.5, 1e-10][j % 5], cb=j % 2 == 0, data=["lowrank", "noisy", "generic"][j % 3],
                 n_samples=[30, 60, 15][j % 3])
+    for alg in CPF:
+        for cap in caps:
+            for tol in (0, 1e-300, 1e-2):
+                for signed in (False, True):
+                    add(alg=alg, cap=cap, tol=tol, signed=signed, rank=2, init=["svd", "random"][len(cfgs) % 2], data=["generic", "lowrank", "noisy"][len(cfgs) % 3])
+        for j in range(12 if thorough else 5):
+            add(alg=alg, cap=[40, 25, 60][j % 3], tol=[1e-3, 1e-6, 1e-1, 0.5, 1e-10][j % 5], signed=j % 2 == 1, rank=[2, 3][j % 2], init=["svd", "random"][j % 2],
+                data=["lowrank", "noisy", "generic"][j % 3], shape=[[4, 5, 3], [5, 4], [3, 4, 2, 3]][j % 3], inner=[5, 1, 10][j % 3])
     for j in range(200 if thorough else 30):
-        alg = ["tucker", "nn_tucker", "nn_tucker_hals", "tr_als", "tr_als_sampled"][int(rng.randint(0, 5))]
+        alg = (TUCKER + RING + CPF)[int(rng.randint(0, 8))]
         cap = int(rng.randint(0, 20))
         cbk = ["none", "never", "stops"][int(rng.randint(0, 3))] if alg.startswith("tr_") else "none"
         add(alg=alg, cap=cap, tol=[0, 1e-300, 1e-4, 1e-2, 0.3][int(rng.randint(0, 5))], init=["svd", "random"][int(rng.randint(0, 2))],
             data=["generic", "lowrank", "noisy"][int(rng.randint(0, 3))], cb=cbk != "none",
-            cb_stop_at=int(rng.randint(0, max(1, cap))) if cbk == "stops" else None)
+            cb_stop_at=int(rng.randint(0, max(1, cap))) if cbk == "stops" else None, signed=bool(rng.rand() < 0.5),
+            **({"rank": 2} if alg in CPF else {}))
     return cfgs
 
 
@@ -181,7 +216,7 @@ def run(chk, opts):
     for cfg in ("IterLoopMC_all.cfg", "IterLoopMC_long.cfg"):
         r = chk.design("IterLoopMC", cfg, coverage=True, timeout=900)
         chk.notes["design_" + cfg] = r.summary()
-        for a in ("Start", "Sweep", "Rec", "PrintLine", "Cb", "Tol"):
+        for a in ("Start", "Sweep", "Rec", "PrintLine", "Cb", "Tol", "Feas"):
             if not r.coverage.get(a, (0, 0))[0]:
                 chk.machinery.append("%s: action %s never taken (vacuous model)" % (cfg, a))
     cfgs = configs(chk.tier, chk.seed)
@@ -194,7 +229,7 @@ def run(chk, opts):
         if e["ev"] != "Call":
             chk.distinct.add((e["ev"], e.get("k"), e.get("has_d")))
     chk.notes["events_by_kind"] = kinds
-    for k in ("Err", "Iter", "Conv", "CbExit", "Return"):
+    for k in ("Err", "Iter", "Err0", "ErrK", "Conv", "CbExit", "Return"):
         if not kinds.get(k):
             chk.machinery.append("no %s event recorded: the runs do not exercise that action" % k)
     for e in [x for x in events if x["ev"] in ("Err", "Conv")][:2]:
